@@ -62,13 +62,15 @@ theorem deleted_forgotten (g : G) (o : Obs) (hi : OInv g o) :
       Forgotten (o.deletedEdge e).gE (o.deletedEdge e).Eg x ∧ Forgotten (o.deletedEdge e).iE (o.deletedEdge e).Ei x) :=
   ⟨fun _ _ h => deletedNode_forgets hi h, fun _ _ h => deletedEdge_forgets hi h⟩
 
-/-- **endpoints_reported**: `getNodes(edgeObject)` are the objects of the top and bottom of the
+/-- unfolding of `World.edgeEnds` (true by definition; the substantive statements — totality, live
+end points, agreement with the graph, the objects returned are *the* objects of those nodes — are
+`endpoints_reported` / `linking_edge_reported` in `Props/C14Report.lean`): `getNodes(edgeObject)` are the objects of the top and bottom of the
 associated edge, and `getEdgeLinking(A,B)` is the object of the graph's edge between the ids of A and B -/
-theorem endpoints_reported (w : World) (o : Obs) (x : Obj) (e : Nat) (hx : find x o.Eg = some e) :
+theorem edgeEnds_unfold (w : World) (o : Obs) (x : Obj) (e : Nat) (hx : find x o.Eg = some e) :
     World.edgeEnds w o x = (w.g.getNodes e).map (fun p => (o.nodeFromGid p.1, o.nodeFromGid p.2)) := by
   simp [World.edgeEnds, hx]
 
-theorem linking_edge_reported (w : World) (o : Obs) (a b : Obj) (ia ib : Nat)
+theorem edgeLinking_unfold (w : World) (o : Obs) (a b : Obj) (ia ib : Nat)
     (ha : find a o.Ng = some ia) (hb : find b o.Ng = some ib) :
     World.edgeLinking w o a b = (w.g.getEdge ia ib).map o.edgeFromGid := by
   simp [World.edgeLinking, ha, hb]
